@@ -98,6 +98,7 @@ type RollConfig struct {
 	OpCountLimit                 IntType  // 算力限制，超过这个值会报错，0为无限，建议值30000
 	DefaultDiceSideExpr          string   // 默认骰子面数
 	defaultDiceSideExprCacheFunc *VMValue // expr的缓存函数
+	defaultDiceSideExprCacheKey  [7]bool  // 缓存函数编译时的语法开关: 宿主在两次求值之间改了开关，缓存就要重新编译
 
 	PrintBytecode bool // 执行时打印字节码
 	IgnoreDiv0    bool // 当div0时暂不报错
@@ -212,6 +213,11 @@ func (ctx *Context) StackTop() int {
 
 func (ctx *Context) Depth() int {
 	return ctx.subThreadDepth
+}
+
+// parseSwitches 决定同一段文本编译成什么的那些开关
+func (c *RollConfig) parseSwitches() [7]bool {
+	return [7]bool{c.EnableDiceWoD, c.EnableDiceCoC, c.EnableDiceFate, c.EnableDiceDoubleCross, c.DisableBitwiseOp, c.DisableStmts, c.DisableNDice}
 }
 
 func (ctx *Context) SetConfig(cfg *RollConfig) {
